@@ -144,6 +144,7 @@ def run_shards(prop, specs, timeout):
                 op = os.path.join(wdir, f"out{i}.json")
                 spec = dict(spec)
                 spec["scratch"] = os.path.join(wdir, f"s{i}")
+                spec.setdefault("hang_dump_s", timeout + 60)
                 os.makedirs(spec["scratch"], exist_ok=True)
                 with open(sp, "w") as f:
                     json.dump(spec, f)
@@ -177,7 +178,10 @@ def run_shards(prop, specs, timeout):
                     with open(op) as f:
                         results[i] = (spec, json.load(f), None)
                 else:
-                    results[i] = (spec, None, f"worker exit {rc}: " + err[-3000:])
+                    crash = os.path.join(WORK, f"crash-{prop}-{i}-{int(time.time())}.txt")
+                    with open(crash, "w") as cf:
+                        cf.write(json.dumps(spec) + "\n" + err)
+                    results[i] = (spec, None, f"worker exit {rc} (full output in {crash}): " + err[-3000:])
     finally:
         for i, (p, *_rest) in running.items():
             p.kill()
